@@ -219,8 +219,14 @@ func vpBigSkeleton(k int) [][]int {
 		return vpRandom3SAT(8, 34, zzvp.Param("seed", 0)+1)
 	case 2:
 		return vpRandom3SAT(10, 42, zzvp.Param("seed", 0)+2)
-	default:
+	case 3:
 		return vpPHP(5, 4)
+	case 4:
+		return vpPHP(7, 5)
+	case 5:
+		return vpPHP(8, 6)
+	default:
+		return vpRandom3SAT(20, 91, zzvp.Param("seed", 0)+3)
 	}
 }
 
